@@ -18,9 +18,14 @@ ASSUMPTIONS = [
 ]
 
 
+def rect_of(col):
+    """the column rectangle from the column's *current* public fields (not through col.rect)"""
+    return geometry.box(col.x_center - col.length / 2, col.y_min, col.x_center + col.length / 2, col.y_max)
+
+
 def raw_blocks(col, coords_list):
     """the same shapely calls as TrenchColumn._dig, up to the MultiPolygon of raw blocks"""
-    blocks = col.rect
+    blocks = rect_of(col)
     for coords in coords_list:
         blocks = blocks.difference(geometry.LineString(coords).buffer(col.adj_bridge, cap_style=1))
     return blocks
@@ -36,13 +41,31 @@ def run_case(rng, utrench=False):
     from femto.helpers import almost_equal
     wgs, descr = layouts.gen_layout(rng)
     col, kw = layouts.gen_column(rng, descr, utrench)
+    moved = None
+    if rng.random() < 0.25:
+        # the rectangle's fields are public attributes: the column is first placed where no waveguide passes (the dig finds
+        # nothing and adds no block), then moved / resized to its final place and dug again
+        moved = {'x_center': kw['x_center'] + rng.choice([60.0, -45.0]), 'y_max': kw['y_max'] + rng.choice([0.15, -0.03, 0.0]),
+                 'length': rng.choice([0.5, 1.2, kw['length']])}
+        final = {k: getattr(col, k) for k in moved}
+        for k, v in moved.items():
+            setattr(col, k, v)
+        try:
+            with pgm.quiet():
+                col.dig_from_waveguide(wgs)
+        except Exception:
+            pass
+        assert not col._trench_list, 'the first placement was meant to find nothing'
+        _ = col.rect
+        for k, v in final.items():
+            setattr(col, k, v)
     coords_list = []
     for wg in wgs:
         x, y = wg.path
         coords_list.append(list(zip(x, y)))
     rb = raw_blocks(col, coords_list)
     raws = list(getattr(rb, 'geoms', [rb])) if not rb.is_empty else []
-    nothing = almost_equal(rb, col.rect, tol=1e-8)
+    nothing = almost_equal(rb, rect_of(col), tol=1e-8)
     nblk = 0 if nothing else len(raws)
     k = rng.random()
     if k < 0.4 or nblk == 0:
@@ -82,7 +105,7 @@ def run_case(rng, utrench=False):
             for j in range(i + 1, len(blocks)):
                 disjoint_ok &= blocks[i].intersection(blocks[j]).area <= 1e-12
         if not nothing and not remove:
-            far = col.rect
+            far = rect_of(col)
             for w in wl:
                 far = far.difference(w.buffer(col.adj_bridge * 1.01 + 1e-6))
             unc = far.difference(unary_union(blocks)) if blocks else far
@@ -93,7 +116,7 @@ def run_case(rng, utrench=False):
         clist(cz(i) for i in (remove or [])),
         copt(None if kept is None else clist(cnat(i) for i in kept)),
         cb(clear_ok), cb(inside_ok), cb(disjoint_ok), cb(cover_ok)))
-    d = dict(layout={k: v for k, v in descr.items() if k != 'calls'}, calls=descr['calls'], column=kw, remove=remove, blocks=nblk,
+    d = dict(layout={k: v for k, v in descr.items() if k != 'calls'}, calls=descr['calls'], column=kw, first_dug_as=moved, remove=remove, blocks=nblk,
              raised=raised, min_clearance=min_clear, needed=need, first_vertex_y=[float(np.float32(b.exterior.coords[0][1])) for b in raws],
              lowest_y=[b.bounds[1] for b in raws])
     return lit, d
